@@ -176,6 +176,14 @@ func main() {
 			}
 			return v + "\n{\"errorCode\":\"ERROR\",\"errorMessage\":\"late failure\"}"
 		}, 0},
+		// ... and so is a reply BEHIND something: a notice line, a JSON string, an array, a stray brace
+		stdoutV{"text-then-valid", false, func(c string) string {
+			v := validReply[c]
+			if c == "get-plugin-metadata" {
+				v = metaJSON(name, "", "1.0")
+			}
+			return []string{"notice: a new version of this plugin is available\n", "\"ok\"\n", "[1,2]\n", "}\n", "\ufeff"}[len(c)%5] + v
+		}, 0},
 		stdoutV{"valid-then-log-line", false, func(c string) string {
 			v := validReply[c]
 			if c == "get-plugin-metadata" {
@@ -408,6 +416,14 @@ func main() {
 			code := strings.TrimPrefix(c.StderrKind, "structured:")
 			if res.ErrType != "request-error" || res.ErrCode != code {
 				r.Violation(sig("structured-error-lost"), fmt.Sprintf("%s: the plugin printed the structured error %s before it was killed by the context; the call returned %s/%s %q", c.ID, code, res.ErrType, res.ErrCode, res.ErrMsg), wit)
+			}
+		}
+		// a plugin that printed nothing and was killed because the context ended is a failing process like any other: typed
+		if killedByCtx && !res.OK && c.StderrKind == "empty" && !c.Big && res.AfterCtxMS <= maxAfterCtxMS {
+			r.Event("error-typing-checked")
+			r.Event("error-typing-of-silent-plugins-killed-by-the-context")
+			if res.ErrType != "executable-file" && res.ErrType != "malformed" {
+				r.Violation(sig("untyped-error"), fmt.Sprintf("%s: a plugin that printed nothing and was killed when its context ended (%s) must yield a typed executable/malformed-plugin error, got %s %q", c.ID, c.Ctx, res.ErrType, res.ErrMsg), wit)
 			}
 		}
 		// 3. bounded buffering
